@@ -3,7 +3,7 @@ namespace Ldap3V.Conn
 
 theorem RouteInv.endDriver {s : St} (h : RouteInv s) (how : Drv) : RouteInv (endDriver s how) := by
   apply h.of_tame
-  · exact (tame_foldl_dropSender s.opQ s.ops).trans (tame_foldl_dropSender2 s.resultmap _)
+  · exact tame_endDriver _ _
   · rfl
   · intro p hp; simp [Conn.endDriver] at hp
   · intro p hp; simp [Conn.endDriver] at hp
@@ -356,8 +356,7 @@ theorem RouteInv.drvOp {s s' : St} {ob : Obs} (h : RouteInv s) (sendOk : Bool)
             simp only [Option.some.injEq, Prod.mk.injEq] at hs
             rw [← hs.1]
             apply h.of_tame
-            · refine Tame.trans (Tame.trans (t0 _ ?_ ?_) (tame_dropSender _ _))
-                (Tame.trans (tame_foldl_dropSender _ _) (tame_foldl_dropSender2 _ _))
+            · refine Tame.trans (Tame.trans (t0 _ ?_ ?_) (tame_dropSender _ _)) (tame_endDriver _ _)
               · rfl
               · exact fun f hf => hf
             · rfl
@@ -426,7 +425,7 @@ theorem RouteInv.endDriverP {s : St} (h : RouteInv s) (how : Drv) (f : Frame) (h
     RouteInv (Conn.endDriver ({ s with pos := s.pos + 1 } : St) how) := by
   have hlt : s.pos < s.srvLog.length := (List.getElem?_eq_some_iff.mp hf).1
   apply h.of_tameP
-  · exact (tame_foldl_dropSender s.opQ s.ops).trans (tame_foldl_dropSender2 s.resultmap _)
+  · exact tame_endDriver ({ s with pos := s.pos + 1 } : St) how
   · rfl
   · intro p hp; simp [Conn.endDriver] at hp
   · intro p hp; simp [Conn.endDriver] at hp
